@@ -2,6 +2,8 @@
 
 package fun
 
+import "sync"
+
 // VerifHook is installed by the conformance harness (build tag verif)
 // before any goroutine is started. verifAt names a yield point; it
 // carries no claim about what the surrounding code did.
@@ -10,5 +12,18 @@ var VerifHook func(point string)
 func verifAt(point string) {
 	if h := VerifHook; h != nil {
 		h(point)
+	}
+}
+
+// VerifGuardHook is installed by the conformance harness (property
+// C13) before any goroutine is started. verifGuard marks the entry of
+// a function whose contract is "the caller holds the lock"; the
+// handler receives that mutex and may probe it. Like verifAt the hook
+// carries no claim about what the surrounding code did.
+var VerifGuardHook func(point string, mu *sync.Mutex)
+
+func verifGuard(point string, mu *sync.Mutex) {
+	if h := VerifGuardHook; h != nil {
+		h(point, mu)
 	}
 }
